@@ -463,7 +463,7 @@ struct VSys {
             std::vector<OpD> v;
             const char *paths[] = {"R0", "R0[\"a\"]", "R0[0]", "R0[\"a\"][\"b\"]", "R0[1]"};
             const char *acts[]  = {
-                "=true", "=false", "=null", "=7u", "=-3", "=2.5", "=\"s\"", "=\"\"", "=\"12\"", "={k:1}", "=[1,\"x\"]", "=R1", "=move(R1)", "=self",
+                "=true", "=false", "=null", "=7u", "=-3", "=2.5", "=\"s\"", "=\"\"", "=\"12\"", "={k:1}", "=[1,\"x\"]", "={a:{a:1,b:2,c:3},x:0}", "=R1", "=move(R1)", "=self",
                 "=String(\"s\")", "=const String&", "=StringView", "=ArrayT&&", "=ObjectT const&",
                 "=own array (const ArrayT& alias)", "=own object (const ObjectT& alias)", "=own string (const String& alias)",
                 "=18446744073709551615u", "=\"18446744073709551615\"", "=\"12x\"", "=1e19",
@@ -474,7 +474,8 @@ struct VSys {
                 "Merge(move(own first child))", "+=move(own first child)", "[move(own first element's string)]",
                 "+=7u", "+=\"s\"", "+=null", "+=true", "+=2.5", "+=[] (ArrayT&&)", "+=[9,8] (ArrayT&&)", "+=[9] (const ArrayT&)", "+={c:3} (ObjectT&&)",
                 "+={a:4} (const ObjectT&)", "+=R1", "+=move(R1)", "+=String&&", "+=StringView",
-                "Merge(R1)", "Merge(move(R1))",
+                "Merge(R1)", "Merge(move(R1))", "Merge(self) (const Value&)", "+=own first child (const Value&) [object]",
+                "Merge(own first child) (const Value&)", "first member's object=whole object (const ObjectT&)",
                 "Remove(\"a\")", "Remove(\"b\",1)", "Remove(String \"a\")", "Remove(String \"k\")", "RemoveIndex(0)", "RemoveIndex(1)", "RemoveIndex(Size)",
                 "Reset", "Compress", "Sort", "Sort desc",
                 "Get(\"b\",1)=5u", "Get(StringView \"c\")=\"s\"", "Insert(\"a\",6u)", "[StringView \"b\"]=null", "[String&& \"c\"]=true", "[const String& \"a\"]=-3",
@@ -808,6 +809,24 @@ struct VSys {
                 t["k"] = SizeT64{1};
                 X      = std::move(t);
                 M      = lit_obj_k1();
+            } else if (act == "={a:{a:1,b:2,c:3},x:0}") {
+                // a member that has a member named like itself: merged into its holder it overwrites itself
+                V t;
+                t["a"]["a"] = SizeT64{1};
+                t["a"]["b"] = SizeT64{2};
+                t["a"]["c"] = SizeT64{3};
+                t["x"]      = SizeT64{0};
+                X           = std::move(t);
+                MV in;
+                in.k = MV::O;
+                in.members.push_back({"a", mUI(1)});
+                in.members.push_back({"b", mUI(2)});
+                in.members.push_back({"c", mUI(3)});
+                MV o;
+                o.k = MV::O;
+                o.members.push_back({"a", in});
+                o.members.push_back({"x", mUI(0)});
+                M = o;
             } else if (act == "=[1,\"x\"]") {
                 V t;
                 t += SizeT64{1};
@@ -985,6 +1004,58 @@ struct VSys {
                     M.k = MV::O;
                     M.members.push_back({child.s, mU()});
                 }
+            } else if (act == "Merge(self) (const Value&)") {
+                // a value merged into itself: the items once more behind themselves / every member overwritten by itself
+                if (M.k == MV::A) {
+                    const MV c = m_copy(M);
+                    X.Merge((const V &)X);
+                    for (auto &e : c.items) {
+                        if (e.k != MV::U) {
+                            M.items.push_back(e);
+                        }
+                    }
+                } else if (M.k == MV::O) {
+                    const MV c = m_copy(M);
+                    X.Merge((const V &)X);
+                    m_merge_obj(M, c);
+                } else {
+                    return false;
+                }
+            } else if (act == "+=own first child (const Value&) [object]" || act == "Merge(own first child) (const Value&)") {
+                // the argument is a member (element) of the receiver, handed over by const reference: it may be relocated by the
+                // growth of the receiver, and - when it has a member named like itself - overwritten by the merge it feeds
+                MV *mc = nullptr;
+                if (M.k == MV::A && !M.items.empty()) {
+                    mc = &M.items[0];
+                } else if (M.k == MV::O && !M.had_removal && !M.members.empty()) {
+                    mc = &M.members[0].second;
+                }
+                if (mc == nullptr || mc->k == MV::U || mc->k == MV::P) {
+                    return false;
+                }
+                const V *c = ((const V &)X).GetValue(SizeT(0));
+                if (c == nullptr) {
+                    err = "GetValue(0) of a non-empty container returned null";
+                    return true;
+                }
+                const MV child = m_copy(*mc);
+                if (M.k == MV::O && child.k == MV::O) {
+                    if (act[0] == '+') {
+                        X += *c;
+                    } else {
+                        X.Merge(*c);
+                    }
+                    m_merge_obj(M, child);
+                } else if (M.k == MV::A && child.k == MV::A && act[0] == 'M') {
+                    X.Merge(*c);
+                    for (auto &e : child.items) {
+                        if (e.k != MV::U) {
+                            M.items.push_back(e);
+                        }
+                    }
+                } else {
+                    return false;
+                }
             } else if (act == "+=own first element (const Value&)") {
                 if (M.k != MV::A || M.items.empty() || M.items[0].k == MV::U || M.items[0].k == MV::P) {
                     return false;
@@ -1005,6 +1076,19 @@ struct VSys {
                 V  &c     = X[SizeT(0)];
                 c         = (const V &)X;
                 M.items[0] = whole;
+            } else if (act == "first member's object=whole object (const ObjectT&)") {
+                // a descendant's table gets a snapshot of its ancestor's table (the receiver is stored inside the source)
+                if (M.k != MV::O || M.had_removal || M.members.empty() || M.members[0].second.k != MV::O) {
+                    return false;
+                }
+                V *c = X.GetValue(SizeT(0));
+                if (c == nullptr || c->GetObject() == nullptr || ((const V &)X).GetObject() == nullptr) {
+                    err = "GetValue(0)/GetObject() of an object with an object member returned null";
+                    return true;
+                }
+                MV whole = m_copy(M);
+                *const_cast<V::ObjectT *>(c->GetObject()) = *((const V &)X).GetObject();
+                M.members[0].second = whole;
             } else if (act == "=ValueType::Null") {
                 X = ValueType::Null; // the overload that takes a kind: the value becomes the empty value of that kind
                 M = mK(MV::N);
